@@ -391,7 +391,11 @@ def fam_statecheat(rnd: random.Random, which: int | None = None, ninputs: int = 
     fork = rnd.random() < 0.6
     if fork:
         # what the cheatcode set stays set on both sides of a later symbolic branch (each path has its own copy of the state)
-        body += [("PUSH", 32), "CALLDATALOAD", ("PUSH", 1), "AND", ("PUSHL", "fk"), "JUMPI", ("PUSH", 0xF0), ("PUSH", 0x3E0), "MSTORE", ("LABEL", "fk")]
+        arm = [("PUSH", 0xF0), ("PUSH", 0x3E0), "MSTORE"]
+        if what not in ("balance", "storage", "code") and rnd.random() < 0.6:
+            # ... and what only one side sets afterwards is set on that side only (the block environment is per path)
+            arm += cheat(rnd.choice(["warp(uint256)", "roll(uint256)", "fee(uint256)", "chainId(uint256)"]), [[("PUSH", rnd.choice([9999, 3, 2**33]))]])
+        body += [("PUSH", 32), "CALLDATALOAD", ("PUSH", 1), "AND", ("PUSHL", "fk"), "JUMPI"] + arm + [("LABEL", "fk")]
     for i, r in enumerate(reads):
         body += r + [("PUSH", 32 * i), "MSTORE"]
     code = assemble(body + [("PUSH", 0x400), ("PUSH", 0), "RETURN"])
